@@ -1,4 +1,5 @@
 import SdcModel.MdibDescr
+import SdcModel.Proofs.MdibVer
 /-!
 # helper lemmas: lookups in the keyed tables / saved-version lookups / insertion ordered dicts
 (`find?` over `filter`, `append`, `map`; `rmX` / `addX`; `dictGet` / `dictSet` / `dictDel`)
